@@ -71,7 +71,7 @@ def helper_key(argv0, cwd):
 
 
 class Fixture:
-    def __init__(self, bins, targets, sequences=None, max_retained_runs=None, extra_cfg=None, gitignore=None):
+    def __init__(self, bins, targets, sequences=None, max_retained_runs=None, extra_cfg=None, gitignore=None, lock_host=None):
         """targets: list of dicts {path, uses?, ignores?, commands?, argmaps?}"""
         self.bins = bins
         self.root = os.path.realpath(tempfile.mkdtemp(prefix="verif-fx-"))
@@ -86,6 +86,7 @@ class Fixture:
         self.sequences = sequences
         self.max_retained_runs = max_retained_runs
         self.extra_cfg = extra_cfg or {}
+        self.lock_host = lock_host      # e.g. "localhost": a name that has to be resolved instead of an address literal
         self.cfg_path = os.path.join(self.repo, "Monorail.json")
         self.cmd_files = {}   # (target, cmd) -> (argv0, cwd, key)
         self.procs = []
@@ -104,7 +105,8 @@ class Fixture:
     def config(self):
         cfg = {"targets": [{k: v for k, v in t.items() if k in ("path", "uses", "ignores", "commands", "argmaps")}
                            for t in self.targets],
-               "server": {"lock": {"port": self.lock_port}, "log": {"port": self.log_port}}}
+               "server": {"lock": dict({"port": self.lock_port}, **({"host": self.lock_host} if self.lock_host else {})),
+                          "log": {"port": self.log_port}}}
         if self.sequences is not None:
             cfg["sequences"] = self.sequences
         if self.max_retained_runs is not None:
